@@ -3,13 +3,15 @@
 import catalogue as cat
 from gen_common import SETUP, SPECIAL_XY, bounds_text, data_params
 from run import Harness
+import gen_C03
 
 ASSUMPTIONS = [
+    "vectorised steps (op 'np') go through engine/npmodel.py, validated against numpy by the C03 check's pre-check",
     "(b) histories: the operation sequence is concrete per harness (enumerated by the generator), every datum, weight and factor "
     "in it is symbolic; invariants are asserted after every step; equalities are exact over the reals",
 ]
 
-C05_SETUP = SETUP + '''
+C05_SETUP = gen_C03.C03_SETUP + '''
 def inv(h, total):
     """None if every bookkeeping invariant of the property holds for the subtree at h (whose entries must equal total)"""
     t = h.name
@@ -74,6 +76,8 @@ OPS = {
     "copy": ("a = a.copy()", False),
     "json": ("a = Factory.fromJson(J(a))", False),
     "zero": ("b = a.zero(); gb = 0.0", False),
+    # vectorised fill of two records with an explicit weight array (through the validated numpy model)
+    "np": ("WA = ARR([ws[{i}], ws[{i}+1]])\nwith NPM():\n    a.fill.numpy(columns(data[{i}:{i}+2]), WA)\nga = ga + ws[{i}] + ws[{i}+1]", 2),
 }
 SEQS = [
     ("fa", "fa"), ("fa", "fb", "add"), ("fa", "fb", "iadd"), ("fa", "mul"), ("fa", "copy", "fa"),
@@ -91,8 +95,12 @@ def _setup(tree):
 
 
 def history(tree, seq, special=False, timeout=60, fixy=False):
-    nfill = sum(1 for o in seq if OPS[o][1])
-    p, pre, code = data_params(tree, nfill, weights=True, mode="real", special=special, wsign="any", fix_leaf_y=fixy)
+    nfill = sum(int(OPS[o][1]) for o in seq)
+    vector = "np" in seq
+    p, pre, code = data_params(tree, nfill, weights=True, mode="real", special=special, wsign="pos" if vector else "any", fix_leaf_y=fixy)
+    if vector:
+        code = code.replace("None", '"c"')
+        pre = [q.replace("> 0.0", ">= 0.0") if q.startswith("w") else q for q in pre]
     params = list(p)
     if "mul" in seq:
         params.append(("f", "float"))
@@ -101,15 +109,15 @@ def history(tree, seq, special=False, timeout=60, fixy=False):
     for o in seq:
         snippet, isfill = OPS[o]
         steps.append(snippet.format(i=i))
-        if isfill:
-            i += 1
+        i += int(isfill)
         steps.append(f'r = inv(a, ga)\nif r is not None: return "after {o}: " + r')
         steps.append(f'r = inv(b, gb)\nif r is not None: return "pool-b after {o}: " + r')
     body = code + "a, b = fresh(MK, 2)\nga = 0.0; gb = 0.0\n" + "\n".join(steps) + "\n"
     name = "-".join(seq)
     return Harness(
         f"C05/hist/{tree.name}/{name}" + ("/s" if special else "") + ("-fixy" if fixy else ""), params, " and ".join(pre), body,
-        timeout=timeout, setup=_setup(tree), tree=tree.expr, special=SPECIAL_XY if special else None,
+        timeout=timeout, setup=_setup(tree), tree=tree.expr,
+        special=(r"^x\d+(_\d+)?$" if vector else SPECIAL_XY) if special else None,
         bounds=bounds_text(tree, nfill, history=name, weights="symbolic finite, any sign", factor="symbolic finite, any sign" if "mul" in seq else "-"),
     )
 
@@ -118,9 +126,16 @@ TREES = ("Bin", "SparselyBin", "CentrallyBin", "IrregularlyBin", "Categorize", "
          "Label", "UntypedLabel", "Index", "Branch")
 
 
+NP_SEQS = [("np",), ("fa", "np"), ("np", "fb", "add")]
+
+
 def harnesses(tier):
     out = []
     units = [t for t in cat.unit() if t.name in TREES]
+    vec_trees = [t for t in units if t.name != "Bag"] + [cat.Tree(n, e) for n, e in gen_C03.EXTRA if "transform" not in n]
+    for t in vec_trees:
+        for s in NP_SEQS if tier == "thorough" else NP_SEQS[:2]:
+            out.append(history(t, s, special=True, timeout=90 if tier == "quick" else 300, fixy=True))
     seqs = SEQS if tier == "quick" else SEQS_T
     for t in units:
         for s in seqs:
